@@ -11,7 +11,7 @@ CHECKS = {
     "C01": ("pbt-programs", "Hypothesis-generated ordered unit pairs with model-different dimensions (near misses, independent trees, special pairs, same-base exponent arithmetic, integer powers of scaled fractional-dimension units) x ~70 operations: negative compile probe (must fail) paired with a positive twin (must compile), plus positive trait TUs that must compile and answer no (Quantity and QuantityPoint, both directions, non-zero origins)",
             "Exploration: fixed grid (every operation x 5 unit pairs) plus random pairs, rotating over the six compiler/standard configurations (thorough: all six).",
             "trusts the model's dimension vectors; a probe only counts when its twin compiled in the same configuration", "4/C01"),
-    "C02": ("pbt-programs", "Hypothesis-generated unit expression trees (incl. non-reduced exponents and integer powers of scaled roots) in five spellings, compiled as static_assert batches: is_same of DimT/MagT against model-spelled canonical types, equivalence/ratio predicates on pairs built equal-by-another-route or as near misses, type identity of permuted products and of every pure product/power tree (incl. partially cancelling exponents such as pow<2>(root<4>(x))) with the canonical alias UnitProductT<UnitPowerT<U,n,d>...> spelled from net exact exponents",
+    "C02": ("pbt-programs", "Hypothesis-generated unit expression trees (incl. non-reduced exponents and integer powers of scaled roots) in five spellings, compiled as static_assert batches: is_same of DimT/MagT against model-spelled canonical types, equivalence/ratio predicates on pairs built equal-by-another-route or as near misses, type identity of permuted products and of every pure product/power tree (incl. partially cancelling exponents such as pow<2>(root<4>(x))) with the canonical alias UnitProductT<UnitPowerT<U,n,d>...> spelled from net exact exponents; type identity of every order/grouping (and cancelling quotients) of anonymous scalings of one base with a third scaled unit",
             "Exploration: a fixed grid (every library unit x 5 spellings, every derived unit against its physical definition, every prefix) plus thousands of random trees/pairs per run, each judged individually under rotating (thorough: all six) compiler configurations. No completeness over all expression trees.",
             "trusts the independently written unit table (auverif/model.py), Python Fractions, and the compilers' static_assert verdicts", "4/C02"),
     "C03": ("pbt-values", "generated instances (grid + Hypothesis) x exhaustive 8/16-bit loops + boundary sets + rapidcheck draws vs exact 128-bit oracle under ASan/UBSan",
@@ -41,19 +41,19 @@ CHECKS = {
     "C10": ("pbt-programs", "Hypothesis-generated pairs/triples of point units (library temperature units, prefixed forms, generated scale+origin units); permutation/repetition identity by static_assert; a validity predicate evaluated on constexpr conversions of 0,1,7 (long long, long double, unsigned) and cross-checked against exact model fractions",
             "Exploration with a validity oracle (any common point unit satisfying the statement is accepted), enumerated library grid plus random generated units.",
             "generated units use int64_t origins; parameters reduced until intermediates fit 58 bits", "4/C10"),
-    "C09": ("pbt-values", "generated (point unit pair, rep pair) instances incl. units with rational scale and origin; enumerated +-2^15 windows around 0 and around each origin plus rapidcheck draws vs the exact rational affine map (128-bit), gated by representability with a two-bit margin; comparisons, point differences and shifts vs exact positions; 17 negative compile probes with positive twins",
+    "C09": ("pbt-values", "generated (point unit pair, rep pair) instances incl. units with rational scale and origin; enumerated +-2^15 windows around 0 and around each origin plus rapidcheck draws vs the exact rational affine map (128-bit; floating tolerance = calculation-rep ulps of the intermediates + target-rep ulps of the result, incl. narrowing double->float instances with origins beyond 2^24), gated by representability with a two-bit margin; comparisons, point differences and shifts vs exact positions; 17 negative compile probes with positive twins",
             "Exploration: exact equality on millions of values per run for integral reps (explicit ulp tolerances for floating reps), enumerated negative probes for every operation without affine meaning.",
             "assertions only where result and model intermediates are representable (the statement's proviso); comparison checks only on instances the policy model admits", "4/C09"),
     "C11": ("pbt-programs", "Hypothesis-generated magnitudes (primes up to 2^64-59, exponents straddling every integer and floating limit, roots, pi) built through the library's operators; static_assert of representable_in/get_value against exact integers and 30-digit mpmath bounds, canonical-type identity, classification and split functions as spelled types, equality via two routes; negative compile probes (with twins) for get_value on non-representable magnitudes",
             "Exploration: enumerated limit grid for all 11 types, magnitudes CONSTRUCTED next to each limit of T (2^a * prod p^e with mixed signs; odd part * 2^k for integers) plus random magnitudes; the bands next to the floating limits and magnitudes whose partial products leave long double's range are only required to be refused cleanly or be correct.",
             "trusts Fractions/mpmath and compile-time evaluation by the compilers", "4/C11"),
-    "C19": ("pbt-values", "generated (unit, rep) instances; all 8/16-bit values, special grids and rapidcheck draws (NaN/inf/-0/denormals/raw bits) comparing every ZERO expression with the raw operator against 0 (value and result type); conversion of ZERO to all reps and chrono durations; negative compile probes with twins for every place a quantity point is required, and trait / decltype-detection blocks (is_constructible, is_convertible, is_assignable, ==, <) that must answer no for points and yes for the Quantity twins",
+    "C19": ("pbt-values", "generated (unit, rep) instances; all 8/16-bit values, special grids and rapidcheck draws (NaN/inf/-0/denormals/raw bits) comparing every ZERO expression with the raw operator against 0 (value and result type); conversion of ZERO to all reps, to all 18 fundamental arithmetic types (trait + constexpr value, every configuration) and chrono durations; negative compile probes with twins for every place a quantity point is required, and trait / decltype-detection blocks (is_constructible, is_convertible, is_assignable, ==, <) that must answer no for points and yes for the Quantity twins",
             "Exploration: exhaustive for small reps, specials + random otherwise, across generated compound units; enumerated negative probes.",
             "raw operators compiled by the same compiler are the oracle; NaN results compared as both-NaN", "4/C19"),
     "C14": ("pbt-values", "Hypothesis-generated unit pairs biased to exact and dimension-only cancellation and to powers of one base (B^a with B^b) x rep pairs: result type pinned by static_assert (raw number iff the model says the units cancel, else Quantity with model-spelled Dimension/Magnitude and raw rep), values bit-equal to raw operators over all 8x8-bit pairs, special grids and rapidcheck draws; int_pow/sqrt/cbrt/inverse checks; negative probes with twins for the integer-division and as_raw_number guards",
             "Exploration: exact for sampled instances under ASan+UBSan; guards probed on an enumerated list of unit/rep combinations.",
             "collapse rule asserted for * and / between quantities (documented scope); int_pow result rep not asserted", "4/C14"),
-    "C15": ("pbt-values", "generated instances per function family: rounding (exhaustive +-2^16 integers, doubles placed k ulp around half-integers/integers of the TARGET unit) against the exact long-double value with a 4-ulp band; inversion (n=1..1000 exhaustive + round trip + random) against trunc(K/x); trig against long double std:: of exact radians with a stated tolerance; hypot/fmod/remainder/min/max/clamp/abs/isnan/copysign against std:: on common-unit values incl. NaN/inf/signed zeros; negative probes for integral inversions with K < 10^6",
+    "C15": ("pbt-values", "generated instances per function family: rounding (exhaustive +-2^16 integers, doubles placed k ulp around half-integers/integers of the TARGET unit) against the exact long-double value with a 4-ulp band, explicit integral and floating OutputRep forms against the implicit form; inversion (n=1..1000 exhaustive + round trip + random) against trunc(K/x); trig against long double std:: of exact radians with a stated tolerance; hypot/fmod/remainder/min/max/clamp/abs/isnan/copysign against std:: on common-unit values incl. NaN/inf/signed zeros; negative probes for integral inversions with K < 10^6",
             "Exploration with explicit tolerances for floating point; exhaustive windows for integral reps.",
             "long double oracle; bands and documented exceptions listed in evidence.assumptions", "4/C15"),
     "C16": ("pbt-programs", "Hypothesis-generated (constant, target unit, type) cases: library constants modelled from the SI exact values and make_constant of generated units with integer/rational/huge-prime/pi magnitudes; static_assert of can_store_value_in and of the converted values against exact ratios / 30-digit bounds, negative probes (with twins) for every conversion form when the ratio is not representable, algebra cases pinning stored number and spelled result unit",
